@@ -131,9 +131,17 @@ def step (s : St) (ws : List String) : St × List String :=
       if r = .ok then
         let (s2, r2) := applyOp s1 (.new u "UserInput".toList none)
         let (s3, r3) := applyOp s2 (.setattr m "u".toList u)
-        let (s4, _) := applyOp s3 (.setStarting m st)
-        if r2 = .ok ∧ r3 = .ok then (s4, ["ok | " ++ obs s4])
-        else (s4, ["quiet-fail " ++ showOutcome r2 ++ " " ++ showOutcome r3])
+        if r2 = .ok ∧ r3 = .ok then
+          let (s4, _) := applyOp s3 (.setStarting m st)
+          (s4, ["ok | " ++ obs s4])
+        else
+          -- the constructor raises: the macro object is bound to no name; it (and its inner child)
+          -- stay visible exactly as far as a live composite still lists them
+          let keepM := p.isSome
+          let keepU := keepM && decide (u ∈ vals (s3.t.children m))
+          let alive := s3.alive.filter fun x => (x != m || keepM) && (x != u || keepU)
+          let s4 := { s3 with alive }
+          (s4, [showOutcome (if r2 = .ok then r3 else r2) ++ " | " ++ obs s4])
       else (s1, [showOutcome r ++ " | " ++ obs s1])
     | _, _, _, _, _ => (s, ["bad-op"])
   | ["syncnode", c, l, p] =>
